@@ -14,22 +14,22 @@ import (
 
 func init() {
 	register(&property{
-		ID: "C08",
+		ID:          "C08",
 		Explanation: "Static decision of the sharing discipline between concurrently handled connections: (R1) a field or variable accessed through sync/atomic anywhere is accessed only through sync/atomic; (R2) per-connection code (everything reachable from Match/Handle/Select/handle) performs no plain store through the shared module instance (receiver of Match/Handle/Select), through a package-level variable, or into anything reached from them - directly or in a callee (effect summaries over the module call graph) - and uses only package-level variables reviewed as safe for concurrent use; (R3) pooled matching buffers: a buffer obtained from the pool and returned in the same function is never retained (stored, returned, sent), and where the buffer is handed to a Connection the Put is under the same guard as the connection's Close; (R4) a goroutine started by a handler with access to the connection is joined before the handler returns; (R5) Connection.Write, which runs concurrently with itself, performs no plain store.",
-		NotDecided: "Absence of data races in general (no whole-program may-happen-in-parallel analysis; third-party code trusted); cross-talk for all interleavings; races on per-connection objects that a handler itself shares between its own goroutines beyond R4/R5.",
-		Run:        runC08,
+		NotDecided:  "Absence of data races in general (no whole-program may-happen-in-parallel analysis; third-party code trusted); cross-talk for all interleavings; races on per-connection objects that a handler itself shares between its own goroutines beyond R4/R5.",
+		Run:         runC08,
 	})
 	register(&property{
-		ID: "C09",
+		ID:          "C09",
 		Explanation: "Static decision of the UDP demultiplexing mechanisms: (R1) channel close ownership: a channel is closed only where no other function sends on it, or after a WaitGroup.Wait that joins the senders; (R2) the association table is indexed, filled and cleaned with one and the same key derivation (<addr>.String() of the datagram's source address / of the virtual connection's address); (R3) replies go to the stored client address, which is written only when the association is created from the first datagram's source address; (R4) there is one ReadFrom site in one reader goroutine per socket, started once per listener returned by ListenAll, and every datagram is forwarded to exactly one per-client queue; (R5) end-of-association notifications are blocking sends (never dropped).",
-		NotDecided: "Interleavings with idle expiry, back-pressure when a per-client queue is full (the loop blocks - liveness), datagram truncation, ordering guarantees of the kernel.",
-		Run:        runC09,
+		NotDecided:  "Interleavings with idle expiry, back-pressure when a per-client queue is full (the loop blocks - liveness), datagram truncation, ordering guarantees of the kernel.",
+		Run:         runC09,
 	})
 	register(&property{
-		ID: "C13",
+		ID:          "C13",
 		Explanation: "Static decision of the listener-wrapper hand-off: (R1) the wrapper's routes are compiled with the hand-off handler as fallback; (R2) pipeConnection, path-evaluated over the TLS-state cases, performs exactly one send on the hand-off channel and returns errHijacked, which listenerHandler returns unchanged; (R3) in listener.handle the connection's Close and the return of its pooled buffer happen under the same 'not hijacked' guard; (R4) shutdown protocol: wg.Add precedes every go handle, handle defers wg.Done, connChan is closed only after wg.Wait in a goroutine of its own, the drain loop that closes pending connections is reached without waiting for the handlers, done is closed after the accept loop, Accept reports net.ErrClosed on both closed channels; (R6) the delivered value is the layer4 connection itself or a wrapper embedding it (prefetched bytes are replayed, plaintext after TLS); (R7) bounded abstract interpretation of the compiled route handler: nothing - in particular not the hand-off fallback - runs after a terminal route.",
-		NotDecided: "'No goroutine stays blocked' in general (hand-off blocks while the consumer is slow, by design); the stream read back after hand-off (C01); TLS state contents.",
-		Run:        runC13,
+		NotDecided:  "'No goroutine stays blocked' in general (hand-off blocks while the consumer is slow, by design); the stream read back after hand-off (C01); TLS state contents.",
+		Run:         runC13,
 	})
 }
 
@@ -382,6 +382,8 @@ func runC08(c *Ctx, r *Report) {
 	c08R3(c, r, "C08.R3")
 	c08R4(c, r, "C08.R4")
 	c08R5(c, r, "C08.R5")
+	c08R6(c, r, "C08.R6")
+	c13R3(c, r, "C08.R7") // the hand-off release discipline is also a C08 obligation (buffer shared across connections)
 }
 
 func c08R1(c *Ctx, r *Report, rule string) {
@@ -888,6 +890,8 @@ func runC09(c *Ctx, r *Report) {
 	c09R3(c, r, "C09.R3")
 	c09R4(c, r, "C09.R4")
 	c09R5(c, r, "C09.R5")
+	c09R6(c, r, "C09.R6")
+	c09R7(c, r, "C09.R7")
 }
 
 func c09R1(c *Ctx, r *Report, rule string) {
@@ -1178,6 +1182,240 @@ func c09R5(c *Ctx, r *Report, rule string) {
 		}
 		n++
 		r.check(u.kind != "select-send-nonblocking", rule, fname(u.fn), fmt.Sprintf("notify#%d", n), c.ipos(u.in), "blocking send", "the notification is sent in a select with default: when the channel is full it is dropped, the dead association stays in the table and the next datagram of that client is sent on its closed queue (panic)")
+	}
+}
+
+// c08R6: a connection starts with an empty matching buffer. The pool hands out slices of whatever length
+// they were put back with (prefetch returns its scratch chunk with its full length), so the taker must
+// truncate: the buffer given to WrapConnection has length 0 (decided by the bounds prover).
+func c08R6(c *Ctx, r *Report, rule string) {
+	r.rule(rule, "every buffer handed to WrapConnection in the module's non-test code has length 0 (proven): bytes that another connection left in a recycled slice are never part of a new connection's matching buffer", 2)
+	n := 0
+	for _, fn := range c.Funcs {
+		if len(fn.Blocks) == 0 {
+			continue
+		}
+		var p *prover
+		for _, ci := range callsIn(fn) {
+			if calleeID(ci) != "layer4.WrapConnection" {
+				continue
+			}
+			n++
+			if p == nil {
+				p = newProver(c, fn)
+			}
+			l := p.lenOf(ci.Common().Args[1])
+			ok := l.ok && p.entails(ci.Block(), l, 0)
+			r.check(ok, rule, fname(fn), fmt.Sprintf("WrapConnection#%d buffer", n), c.ipos(ci), "len(buf) = 0 proven", "the buffer given to the new connection is not proven empty: a slice recycled through the pool keeps the length it was returned with, so the connection's matchers and handlers would first see another connection's bytes")
+		}
+	}
+}
+
+// c09R6: queued datagrams do not alias. Everything put on a queue from inside a loop (the datagram
+// record sent by pointer to a client's queue, the pooled buffer inside the record sent by the reader
+// goroutine) is storage obtained in the same loop iteration.
+func c09R6(c *Ctx, r *Report, rule string) {
+	r.rule(rule, "queued datagrams do not alias: a pointer sent on a per-client queue from the serve loop addresses a variable allocated inside the loop (one per datagram), and the buffer of every datagram record the reader goroutine queues comes from a pool Get / allocation made in the same iteration", 2)
+	fn := c.Fn("layer4.(*Server).servePacket")
+	if fn == nil {
+		r.bad(rule, "layer4.(*Server).servePacket", "exists", "-", "function not found")
+		return
+	}
+	type sendSite struct {
+		ch, val ssa.Value
+		in      ssa.Instruction
+		fn      *ssa.Function
+	}
+	var sends []sendSite
+	var scan func(f *ssa.Function)
+	scan = func(f *ssa.Function) {
+		for _, b := range f.Blocks {
+			for _, in := range b.Instrs {
+				switch x := in.(type) {
+				case *ssa.Send:
+					sends = append(sends, sendSite{x.Chan, x.X, in, f})
+				case *ssa.Select:
+					for _, st := range x.States {
+						if st.Dir == types.SendOnly {
+							sends = append(sends, sendSite{st.Chan, st.Send, in, f})
+						}
+					}
+				}
+			}
+		}
+		for _, a := range f.AnonFuncs {
+			scan(a)
+		}
+	}
+	scan(fn)
+	n := 0
+	for _, sd := range sends {
+		if !inLoop(sd.in.Block()) {
+			continue
+		}
+		et := sd.ch.Type().Underlying().(*types.Chan).Elem()
+		switch et.Underlying().(type) {
+		case *types.Pointer:
+			n++
+			k := fmt.Sprintf("pointer sent on %s#%d", chanID(sd.ch), n)
+			good, detail := true, ""
+			for _, rt := range addrRoots(sd.val) {
+				al, ok := rt.(*ssa.Alloc)
+				if !ok {
+					good, detail = false, fmt.Sprintf("the pointer is derived from %T %s, not from a variable of the loop body", rt, rt.Name())
+					continue
+				}
+				if !inLoop(al.Block()) {
+					good, detail = false, "the pointer addresses variable '"+al.Comment+"' allocated once outside the loop: every queued datagram is the same record, overwritten by the next one (also another client's)"
+				}
+			}
+			r.check(good, rule, fname(sd.fn), k, c.ipos(sd.in), "addresses a variable allocated per iteration", detail)
+		case *types.Struct:
+			// a record sent by value: its slice fields must be obtained in the same iteration
+			var parts []ssa.Value
+			var allocs []*ssa.Alloc
+			if ld, ok := sd.val.(*ssa.UnOp); ok && ld.Op == token.MUL {
+				if al, ok := ld.X.(*ssa.Alloc); ok {
+					allocs = append(allocs, al)
+				}
+			}
+			for _, al := range allocs {
+				{
+					for _, b := range sd.fn.Blocks {
+						for _, in := range b.Instrs {
+							if st, ok := in.(*ssa.Store); ok {
+								if base, _, _, ok := fieldAddr(st.Addr); ok && base == ssa.Value(al) {
+									if _, isSl := st.Val.Type().Underlying().(*types.Slice); isSl {
+										parts = append(parts, st.Val)
+									}
+								}
+							}
+						}
+					}
+				}
+			}
+			for _, pv := range parts {
+				n++
+				k := fmt.Sprintf("buffer in record sent on %s#%d", chanID(sd.ch), n)
+				good, detail := true, ""
+				for _, rt := range addrRoots(pv) {
+					in, ok := rt.(ssa.Instruction)
+					if !ok || in.Block() == nil || !inLoop(in.Block()) {
+						good, detail = false, fmt.Sprintf("the buffer queued with every datagram comes from %s, obtained outside the loop: the next socket read overwrites datagrams that are still queued", rt.Name())
+					}
+				}
+				r.check(good, rule, fname(sd.fn), k, c.ipos(sd.in), "buffer obtained in the same iteration", detail)
+			}
+		}
+	}
+}
+
+// c09R7: path evaluation of packetConn.Read - a datagram's pooled buffer is released exactly when its
+// reader is exhausted and retained (lastPacket/lastBuf) exactly when bytes remain.
+func c09R7(c *Ctx, r *Report, rule string) {
+	r.rule(rule, "path evaluation of packetConn.Read over {fresh datagram, continued datagram} x {caller's buffer smaller than / exactly / larger than the remaining bytes}: the pooled buffer is returned to the pool iff the datagram's reader is exhausted, otherwise record and reader are retained for the next Read; a datagram is never both", 6)
+	fnName := "layer4.(*packetConn).Read"
+	fn := c.Fn(fnName)
+	if fn == nil {
+		r.bad(rule, fnName, "exists", "-", "function not found")
+		return
+	}
+	for _, cont := range []bool{false, true} {
+		sc := &Scenario{
+			Name:     fmt.Sprintf("continued=%v", cont),
+			MaxVisit: 3,
+			Heap:     map[string]SV{},
+			Inline: func(f *ssa.Function) bool {
+				return strings.HasPrefix(fname(f), "layer4.") && f != fn
+			},
+			Alts: func(callee string, args []SV, ev *symEval, st *symState) []CallAlt {
+				if callee == "(*bytes.Reader).Read" {
+					rd := args[0].Desc
+					// the caller's buffer has 10 bytes (see Params)
+					mk := func(note string, n, rem int64) CallAlt {
+						return CallAlt{Note: note, Ret: SV{K: "tuple", Desc: "rd", Elems: []SV{symInt(n), symNil()}}, Effect: func(ev *symEval, st *symState) {
+							st.heap["remaining:"+rd] = symInt(rem)
+						}}
+					}
+					return []CallAlt{mk("smaller", 10, 7), mk("exact", 10, 0), mk("larger", 3, 0)}
+				}
+				return nil
+			},
+			Call: func(callee string, args []SV, ev *symEval, st *symState) (SV, bool) {
+				switch callee {
+				case "bytes.NewReader":
+					return SV{K: "ref", Known: true, Desc: ev.fresh("reader") + "(" + args[0].Desc + ")"}, true
+				case "(*bytes.Reader).Len":
+					if v, ok := st.heap["remaining:"+args[0].Desc]; ok {
+						return v, true
+					}
+					return SV{K: "int", Desc: "len?" + args[0].Desc}, true
+				case "layer4.isDeadlineExceeded":
+					return symBool(false), true
+				}
+				return SV{}, false
+			},
+		}
+		if cont {
+			sc.Heap["recv.lastPacket"] = symRef("lastPkt", false)
+			sc.Heap["recv.lastBuf"] = symRef("lastRd", false)
+		} else {
+			sc.Heap["recv.lastPacket"] = symNil()
+			sc.Heap["recv.lastBuf"] = symNil()
+		}
+		sc.Params = map[string]SV{"p0": symSlice("b", 10)}
+		sc.Heap["recv.idleTimer"] = symRef("idle", false)
+		sc.Heap["recv.deadlineTimer"] = symRef("dl", false)
+		paths, err := evalPaths(fn, sc)
+		if err != nil || len(paths) == 0 {
+			r.bad(rule, fnName, sc.Name, c.pos(fn.Pos()), fmt.Sprintf("undecided: %v", err))
+			continue
+		}
+		seen := map[string]bool{}
+		for _, p := range paths {
+			note := ""
+			var reader string
+			for _, e := range p.Trace {
+				if e.Kind == "call" && e.What == "(*bytes.Reader).Read" {
+					note = e.Note
+					reader = e.Args[0]
+				}
+			}
+			if note == "" {
+				continue
+			}
+			k := sc.Name + "," + note
+			if seen[k] {
+				continue
+			}
+			seen[k] = true
+			puts := 0
+			for _, e := range p.Trace {
+				if e.Kind == "call" && e.What == "(*sync.Pool).Put" {
+					puts++
+				}
+			}
+			lp, lb := p.Heap["recv.lastPacket"], p.Heap["recv.lastBuf"]
+			retained := !(lp.Known && lp.Nil)
+			var problems []string
+			if p.Outcome != "return" {
+				problems = append(problems, "path ends with "+p.Outcome)
+			}
+			exhausted := note != "smaller"
+			switch {
+			case exhausted && puts != 1:
+				problems = append(problems, fmt.Sprintf("the datagram is exhausted but its pooled buffer is returned %d times", puts))
+			case exhausted && retained:
+				problems = append(problems, "the datagram is exhausted but kept as lastPacket: the next Read returns (0, EOF) on a live association")
+			case !exhausted && puts != 0:
+				problems = append(problems, "bytes remain but the pooled buffer is released: the rest of the datagram is lost / overwritten")
+			case !exhausted && !retained:
+				problems = append(problems, "bytes remain but the datagram is not retained for the next Read")
+			case !exhausted && !(lb.Desc == reader || strings.Contains(lb.Desc, reader) || cont):
+				problems = append(problems, "the retained reader is "+lb.Desc+", not the datagram's reader "+reader)
+			}
+			r.check(len(problems) == 0, rule, fnName, k, c.pos(fn.Pos()), "release iff exhausted, retain iff bytes remain", strings.Join(problems, "; "))
+		}
 	}
 }
 
@@ -1512,7 +1750,6 @@ func c13R6(c *Ctx, r *Report, rule string) {
 		}
 	}
 }
-
 
 // valueLikeGlobal decides whether a module package-level variable is harmless to share: its type
 // holds no hidden mutable state (basic types, strings, error values, slices/arrays of those that
